@@ -34,7 +34,7 @@ where CL03<CS>: Scheme<PubKey = CL03PublicKey, PrivKey = CL03SecretKey>, CS::Has
     } } }
     for s in 0..2 { for wi in [1usize, 4, 6] { roots.push(Root { id: format!("{}/{}/w={}/transplant", CS::NAME, settings[s].0, widths[wi].0), s, wi, oi: 1, kind: Kind::Transplant }); roots.push(Root { id: format!("{}/{}/w={}/statement", CS::NAME, settings[s].0, widths[wi].0), s, wi, oi: 1, kind: Kind::Statement }); } }
     for (s, wi) in [(0usize, 4usize), (1, 6)] { if s == 1 && !env.thorough() { continue; } let nch = 16; for ch in 0..nch { roots.push(Root { id: format!("{}/{}/w={}/leaf-edits/chunk{}", CS::NAME, settings[s].0, widths[wi].0, ch), s, wi, oi: 1, kind: Kind::Leaf(ch, nch) }); } }
-    env.ctx.set_rule("completeness: 2 (bases, modulus) settings x 7 interval widths {1,2,3,4,255,2^64,2^256-1} x 3 offsets {0,1,2^32} x 5 points {a, a+1, mid, b-1, b} => verify = true; honest prover out of range: x in {a-1, b+1, a-2^64, b+2^64} => no accepted proof (a prover panic is a refusal); transplants: per honest proof, 5 target commitments {commit(a-1), commit(b+1), commit(a-2^64), commit(-5), random group element} x ALL 16 keep/recompute patterns over {E_a_1, E_a_2, E_b_1, E_b_2} with E, E_prime re-targeted => rejected; statement edits: bounds a+-1, b+-1, other bases, other modulus => rejected; leaf edits: every integer leaf +1/-1/zero/sibling swap => rejected. State = (setting, interval, point / attack); non-trivial = the real verifier ran.");
+    env.ctx.set_rule("completeness: 2 (bases, modulus) settings x 7 interval widths {1,2,3,4,255,2^64,2^256-1} x 3 offsets {0,1,2^32} x 5 points {a, a+1, mid, b-1, b} => verify = true; honest prover out of range: x in {a-1, b+1, a-2^64, b+2^64} => no accepted proof (a prover panic is a refusal); transplants: per honest proof, 5 target commitments {commit(a-1), commit(b+1), commit(a-2^64), commit(-5), random group element} x ALL 16 keep/recompute patterns over {E_a_1, E_a_2, E_b_1, E_b_2} with E, E_prime re-targeted => rejected; statement edits: honest first, then shifted intervals of the same width (and an honest proof for the shifted interval must verify right after), bounds a+-1, b+-1, other bases, other modulus => rejected; transplants also re-target the honest commitment to the bounds [a+1, b] and [a, b-1] with all 16 patterns; leaf edits: every integer leaf +1/-1/zero/sibling swap => rejected. State = (setting, interval, point / attack); non-trivial = the real verifier ran.");
     par_for(&roots, |_, r| {
         if !env.want(&r.id) || env.ctx.out_of_time() { return; }
         let (sn, g, h, n) = (&settings[r.s].0, &settings[r.s].1, &settings[r.s].2, &settings[r.s].3);
@@ -73,6 +73,20 @@ where CL03<CS>: Scheme<PubKey = CL03PublicKey, PrivKey = CL03SecretKey>, CS::Has
             Kind::Statement => {
                 let c = commit(&mid, &rnd("st"), g, h, n);
                 let p = match prove(&mid, &c, &a, &b) { O::Ok(p) => p, o => { env.ctx.violation("C16:complete:prove-failed", &o.describe(), env.case(&r.id, det0)); return; } };
+                // the honest verification comes first: whatever the verifier remembers from it must not leak into the next ones
+                env.ctx.state(&[r.id.as_bytes(), b"honest-first"]);
+                expect_bool(env, &r.id, "verify(honest proof) before the statement edits", &verify(&p, g, h, n, &a, &b), true, false, "complete", det0.clone()); env.ctx.trace();
+                for d in [1i32, 3, -1] {
+                    let (lo, hi) = (a.clone() + d, b.clone() + d);
+                    if lo < 0 { continue; }
+                    if !env.ctx.state(&[r.id.as_bytes(), format!("shift{}", d).as_bytes()]) { continue; }
+                    expect_bool(env, &r.id, &format!("verify against the shifted interval [a{:+}, b{:+}] (same width)", d, d), &verify(&p, g, h, n, &lo, &hi), false, true, "statement:shifted-interval", json!({"base": det0, "shift": d}));
+                    // and an honest proof FOR the shifted interval must verify right after
+                    let x2 = mid.clone() + d; let c2 = commit(&x2, &rnd(&format!("sh{}", d)), g, h, n);
+                    if let O::Ok(p2) = prove(&x2, &c2, &lo, &hi) { expect_bool(env, &r.id, &format!("verify(honest proof for [a{:+}, b{:+}]) after verifying under [a, b]", d, d), &verify(&p2, g, h, n, &lo, &hi), true, false, "complete:after-history", json!({"base": det0, "shift": d})); }
+                    env.ctx.class("statement-edit:shifted"); env.ctx.trace();
+                }
+                expect_bool(env, &r.id, "verify(honest proof) again after the shifted intervals", &verify(&p, g, h, n, &a, &b), true, false, "complete:after-history", det0.clone());
                 let (og, oh, on) = (&settings[1 - r.s].1, &settings[1 - r.s].2, &settings[1 - r.s].3);
                 let cases: Vec<(&str, Integer, Integer, &Integer, &Integer, &Integer)> = vec![("a+1", a.clone() + 1u32, b.clone(), g, h, n), ("a-1", a.clone() - 1u32, b.clone(), g, h, n), ("b+1", a.clone(), b.clone() + 1u32, g, h, n), ("b-1", a.clone(), b.clone() - 1u32, g, h, n),
                     ("bases swapped", a.clone(), b.clone(), h, g, n), ("other bases", a.clone(), b.clone(), og, oh, n), ("other modulus", a.clone(), b.clone(), g, h, on), ("other bases and modulus", a.clone(), b.clone(), og, oh, on)];
@@ -85,22 +99,29 @@ where CL03<CS>: Scheme<PubKey = CL03PublicKey, PrivKey = CL03SecretKey>, CS::Has
             }
             Kind::Transplant => {
                 // honest proof for x = mid, then re-target it to E' without knowing an in-range opening of E'
-                let c = commit(&mid, &rnd("tp"), g, h, n);
-                let p = match prove(&mid, &c, &a, &b) { O::Ok(p) => p, o => { env.ctx.violation("C16:complete:prove-failed", &o.describe(), env.case(&r.id, det0)); return; } };
+                // two honest proofs: for the lower end x = a and for the upper end x = b
+                for (which, x0) in [("x=a", a.clone()), ("x=b", b.clone())] {
+                let c = commit(&x0, &rnd(which), g, h, n);
+                let p = match prove(&x0, &c, &a, &b) { O::Ok(p) => p, o => { env.ctx.violation("C16:complete:prove-failed", &o.describe(), env.case(&r.id, det0.clone())); return; } };
                 let j = to_json(&p);
-                let big_t = 2 * (T_PARAM + L_PARAM + 1) + (&b - &a).complete().significant_bits();
-                let sq = Integer::from((&b - &a).complete().sqrt_ref());
-                let aa = pow2(big_t) * &a - pow2(L_PARAM + T_PARAM + big_t / 2 + 1) * &sq;
-                let bb = pow2(big_t) * &b + pow2(L_PARAM + T_PARAM + big_t / 2 + 1) * &sq;
-                let targets: Vec<(&str, Integer)> = vec![("commit(a-1)", commit(&(a.clone() - 1u32), &rnd("t1"), g, h, n).value), ("commit(b+1)", commit(&(b.clone() + 1u32), &rnd("t2"), g, h, n).value), ("commit(a-2^64)", commit(&(a.clone() - pow2(64)), &rnd("t3"), g, h, n).value), ("commit(-5)", commit(&Integer::from(-5), &rnd("t4"), g, h, n).value), ("random group element", modpow(&rnd("t5"), &Integer::from(2), n))];
+                // targets: (name, commitment E', bounds to verify against). Foreign commitments under the honest bounds, and the
+                // honest commitment under shifted bounds (the proof is re-targeted to a statement it was not made for either way)
+                let mut targets: Vec<(String, Integer, Integer, Integer)> = if which == "x=b" { vec![] } else { vec![("commit(a-1)".into(), commit(&(a.clone() - 1u32), &rnd("t1"), g, h, n).value, a.clone(), b.clone()), ("commit(b+1)".into(), commit(&(b.clone() + 1u32), &rnd("t2"), g, h, n).value, a.clone(), b.clone()), ("commit(a-2^64)".into(), commit(&(a.clone() - pow2(64)), &rnd("t3"), g, h, n).value, a.clone(), b.clone()), ("commit(-5)".into(), commit(&Integer::from(-5), &rnd("t4"), g, h, n).value, a.clone(), b.clone()), ("random group element".into(), modpow(&rnd("t5"), &Integer::from(2), n), a.clone(), b.clone())] };
+                // a commitment to the LOWER END a, re-targeted to [a+1, b] (violates only the lower bound), and to the upper end b for [a, b-1]
+                if (&b - &a).complete() > 1 { if which == "x=a" { targets.push(("the honest commitment to a, re-targeted to bounds [a+1, b]".into(), c.value.clone(), a.clone() + 1u32, b.clone())); } else { targets.push(("the honest commitment to b, re-targeted to bounds [a, b-1]".into(), c.value.clone(), a.clone(), b.clone() - 1u32)); } }
                 let get = |k: &str| leaf_int(&j["proof_of_tolerance"][k]).unwrap();
-                for (tn, e_t) in &targets {
+                for (tn, e_t, lo, hi) in &targets {
+                    if hi <= lo { continue; }
+                    let big_t = 2 * (T_PARAM + L_PARAM + 1) + (hi - lo).complete().significant_bits();
+                    let sq = Integer::from((hi - lo).complete().sqrt_ref());
+                    let aa = pow2(big_t) * lo - pow2(L_PARAM + T_PARAM + big_t / 2 + 1) * &sq;
+                    let bb = pow2(big_t) * hi + pow2(L_PARAM + T_PARAM + big_t / 2 + 1) * &sq;
                     let e_prime = modpow(e_t, &pow2(big_t), n);
                     let e_a = (e_prime.clone() * inv(&modpow(g, &aa, n), n)) % n;       // E_a = E'/g^aa
                     let e_b = (modpow(g, &bb, n) * inv(&e_prime, n)) % n;               // E_b = g^bb/E'
                     for pat in 0..16u32 {
                         // bit set = keep the honest value of that commitment, recompute its partner from the public relation E_x = E_x_1 * E_x_2
-                        let name = format!("{} / pattern {:04b}", tn, pat);
+                        let name = format!("{} / {} / pattern {:04b}", which, tn, pat);
                         if !env.ctx.state(&[r.id.as_bytes(), name.as_bytes()]) { continue; }
                         let (mut ea1, mut ea2, mut eb1, mut eb2) = (get("E_a_1"), get("E_a_2"), get("E_b_1"), get("E_b_2"));
                         // a-side: keep E_a_2 (bit1) and solve E_a_1, or keep E_a_1 (bit0) and solve E_a_2; both kept = no adaptation; none kept = both replaced by a fresh split
@@ -110,12 +131,14 @@ where CL03<CS>: Scheme<PubKey = CL03PublicKey, PrivKey = CL03SecretKey>, CS::Has
                         x["E"] = int_leaf(e_t); x["E_prime"] = int_leaf(&e_prime);
                         x["proof_of_tolerance"]["E_a_1"] = int_leaf(&ea1); x["proof_of_tolerance"]["E_a_2"] = int_leaf(&ea2); x["proof_of_tolerance"]["E_b_1"] = int_leaf(&eb1); x["proof_of_tolerance"]["E_b_2"] = int_leaf(&eb2);
                         let p2: Option<RP> = from_json(&x);
-                        let got = match &p2 { Some(q) => verify(q, g, h, n, &a, &b), None => O::Ok(false) };
+                        let got = match &p2 { Some(q) => verify(q, g, h, n, lo, hi), None => O::Ok(false) };
+                        // the honest proof under its own bounds is the only accepted combination; every target here is a different statement
                         expect_bool(env, &r.id, &format!("verify(transplant onto {})", name), &got, false, true, &format!("transplant:pattern-{:04b}", pat), json!({"base": det0, "target": tn, "pattern(keep E_b_2,E_b_1,E_a_2,E_a_1)": format!("{:04b}", pat)}));
                         env.ctx.class(&format!("transplant:{}", match got { O::Ok(true) => "accepted", O::Ok(false) => "rejected", _ => "refused-by-panic" })); env.ctx.trace();
                     }
                 }
-                env.ctx.sample(json!({"root": r.id, "targets": targets.iter().map(|t| t.0).collect::<Vec<_>>(), "patterns": 16}));
+                if which == "x=a" { env.ctx.sample(json!({"root": r.id, "targets": targets.iter().map(|t| t.0.clone()).collect::<Vec<_>>(), "patterns": 16})); }
+                }
             }
             Kind::Leaf(ch, nch) => {
                 let c = commit(&mid, &rnd("lf"), g, h, n);
